@@ -1,0 +1,6 @@
+//go:build !verif
+// +build !verif
+
+package turbotunnel
+
+func vhook(point string, args ...interface{}) {}
